@@ -13,6 +13,20 @@ func nestedSpecs(r *Run, detach bool, oracles []string) []Spec {
 		}
 		return m
 	}
+	ex2 := func(rootmap, lr, lc, maxc, depth int) map[string]int {
+		m := ex(rootmap, lr, lc, maxc, depth)
+		m["nosettype"] = 1
+		m["childcls"] = 1 // children hold only t / h
+		return m
+	}
+	// two live handles to the same attached child, restricted to children that always stay a single slab
+	// (no bulk pop, no grandchildren): the handles then share one root slab object for their whole life
+	exTwo := func(rootmap, lr, lc, maxc, depth int) map[string]int {
+		m := ex2(rootmap, lr, lc, maxc, depth)
+		m["twoh"] = 1
+		m["nocdrop"] = 1
+		return m
+	}
 	var specs []Spec
 	cls := []string{"t", "h", "A", "M"}
 	if !r.Thorough() {
@@ -23,6 +37,10 @@ func nestedSpecs(r *Run, detach bool, oracles []string) []Spec {
 			Spec{Name: "nested-map-cross", Kind: "nested", T: 256, Keys: 2, Classes: []string{"t", "h", "M"}, Oracles: oracles, Extra: ex(1, 2, 3, 2, 2)},
 			Spec{Name: "nested-wrapped", Kind: "nested", T: 256, Keys: 2, Classes: []string{"t", "h", "s:A", "s:M"}, Oracles: oracles, Extra: ex(0, 2, 3, 2, 2), Depth: 0},
 			Spec{Name: "nested-depth3", Kind: "nested", T: 256, Keys: 1, Classes: []string{"h", "A", "M"}, Oracles: oracles, Extra: ex(0, 1, 2, 3, 3)},
+			Spec{Name: "nested-two-handles", Kind: "nested", T: 256, Keys: 2, Classes: []string{"t", "A", "M"}, Oracles: oracles, Extra: exTwo(0, 2, 3, 2, 2)},
+			Spec{Name: "nested-two-handles-map", Kind: "nested", T: 256, Keys: 2, Classes: []string{"t", "A", "M"}, Oracles: oracles, Extra: exTwo(1, 2, 3, 2, 2)},
+			Spec{Name: "nested-parent-split", Kind: "nested", T: 256, Keys: 2, Classes: []string{"limA", "s30", "A"}, Oracles: oracles, Extra: ex2(0, 4, 3, 2, 2)},
+			Spec{Name: "nested-parent-split-map", Kind: "nested", T: 256, Keys: 4, Classes: []string{"limM", "s30", "A"}, Oracles: oracles, Extra: ex2(1, 4, 3, 2, 2)},
 		)
 	} else {
 		specs = append(specs,
@@ -45,6 +63,22 @@ func runC10(r *Run) {
 		"closure holds inside the bounded universe (element bounds, <= 4 live containers, 2 size classes crossing the inline limit)",
 	}
 	r.ExploreSpecs(nestedSpecs(r, false, []string{"sem", "struct", "inline", "reopen", "events"}))
+	// children spread over multi-level parents: handle obtained, parent restructured (splits, merges,
+	// the child moving to another slab), child mutated across the inline limit through the handle
+	var ks []Spec
+	kor := []string{"sem", "struct", "inline", "reopen"}
+	step, depth := 7, 2
+	if r.Thorough() {
+		step = 3
+	}
+	for _, sc := range []string{"arr-kids", "map-kids"} {
+		sp := TrajSpecs(r.ID, sc, 64, 8, 65, step, depth, 256, []string{"limA"}, kor)
+		for i := range sp {
+			sp[i].Kind = "traj-kids"
+		}
+		ks = append(ks, sp...)
+	}
+	r.ExploreSpecs(ks)
 }
 
 func runC11(r *Run) {
